@@ -674,6 +674,8 @@ class Engine(object):
         I = self.interp
         m = self.externals.get(fv.name)
         if m is not None:
+            args = [I.resolve(ctx, a) for a in args]
+            kwargs = dict((k, I.resolve(ctx, v)) for k, v in kwargs.items())
             if star is not None:
                 kwargs = dict(kwargs)
                 kwargs['__star__'] = star
